@@ -1,6 +1,26 @@
 """Level text / notes per property for MANIFEST.json."""
 KERNEL = "Lean 4.33 kernel + axioms {propext, Classical.choice, Quot.sound}; constants translator; correspondence harness/driver (differential testing, not proof); "
 TEXT = {
+    "C03": {
+        "level": "Kernel-checked for every piece length > 0, every list of file lengths (zero-length files, files inside one piece, any alignment) and every "
+                 "content: the bytes extract_files writes for each file are exactly the slice of the concatenated content at the file's offset, in its declared "
+                 "length (T2: extractImpl = extractSpec; key lemma extractOne_slice by arithmetic on piece_pos and induction over the whole-piece loop); for every "
+                 "torrent whose piece count matches its total length the per-piece lengths sum to the total, each stored piece has piece_length(i) bytes and the "
+                 "pieces concatenate to the content (T1). Tied to the real Metainfo/Extractor: real extraction in a scratch directory compared byte for byte.",
+        "note": KERNEL + "modelled: the piece store as slices of the content (what C01 guarantees about the piece files); std::fs read/seek/write as array "
+                "operations; file creation/paths are C04's subject.",
+        "technique": "Lean 4 proof (slice algebra + induction over pieces and over the file list; arithmetic on div/mod) + differential correspondence on real extraction",
+    },
+    "C04": {
+        "level": "Kernel-checked for every name and every path byte string (absolute, '..', '.', empty components, any nesting): the output path consists of "
+                 "plain components only, so it and every directory prefix created on the way stay inside the download directory (T1), multi-file paths lie under "
+                 "the sanitised torrent name (T2), no '..', '.', or empty component survives (T3), and the joined string handed to the OS reads back as exactly "
+                 "those components and is relative (T4). Tied to the real code twice: file_piece_ranges' paths compared component-wise with the model, and real "
+                 "extraction in a jail directory with a recursive listing of everything created.",
+        "note": KERNEL + "outside the model: the OS resolving a relative path of plain components to nested entries; symbolic links already present in the "
+                "download directory; non-Unix path syntax. 'Multi-file' = more than one file, as in the implementation.",
+        "technique": "Lean 4 proof (lexical path walk; induction over component lists; split/join round trip) + differential correspondence and filesystem oracle on real extraction",
+    },
     "C06": {
         "level": "Kernel-checked theorems for every byte string and every segmentation: consumed counts stay inside the buffer (T1, no advance past the end), "
                  "run [] chunks = decodeAll (flatten chunks) for all chunkings (T2), frames complete in the received prefix are emitted before the next read and "
